@@ -237,7 +237,7 @@ func (c *esmCase) setupEsm() {
 		g := c.govs[app]
 		c.target[app] = sdk.NewInt(r.pickI(1000000, 1000000, 5, 1, 250000000))
 		c.coolp[app] = r.pickU(30, 600, 5000)
-		c.hasParam[app] = !r.chance(5)
+		c.hasParam[app] = !r.chance(3)
 		var rates []esmtypes.DebtAssetsRates
 		if r.chance(85) {
 			rates = append(rates, esmtypes.DebtAssetsRates{AssetID: d1.id, Rates: r.pickU(1000000, 1000000, 990000)})
@@ -254,8 +254,8 @@ func (c *esmCase) setupEsm() {
 		if c.hasParam[app] {
 			a.EsmKeeper.SetESMTriggerParams(ctx, esmtypes.ESMTriggerParams{AppId: app, TargetValue: sdk.NewCoin(g.denom, c.target[app]), CoolOffPeriod: c.coolp[app], AssetsRates: rates})
 		}
-		cur := sdk.NewInt(r.pickI(1000000000000, 1000000000000, 1200000, 3))
-		if !r.chance(6) {
+		cur := sdk.NewInt(r.pickI(1000000000000, 1000000000000, 1000000000000, 1000000000000, 1000000000000, 1000000000000, 1000000000000, 1000000000000, 1000000000000, 1000000000000, 1200000, 3))
+		if !r.chance(3) {
 			a.TokenmintKeeper.SetTokenMint(ctx, tokenminttypes.TokenMint{AppId: app, MintedTokens: []*tokenminttypes.MintedTokens{{AssetId: g.id,
 				GenesisSupply: sdk.NewInt(1000000000000), CreatedAt: c.now, CurrentSupply: cur}}})
 		}
@@ -282,7 +282,11 @@ func (c *esmCase) setupEsm() {
 			coins = coins.Add(sdk.NewCoin(as.denom, amt))
 		}
 		for _, app := range c.apps {
-			coins = coins.Add(sdk.NewCoin(c.govs[app].denom, sdk.NewInt(r.pickI(500000000, 2000000, 3))))
+			gamt := r.pickI(500000000, 500000000, 2000000, 3)
+			if i == 0 {
+				gamt = 500000000
+			}
+			coins = coins.Add(sdk.NewCoin(c.govs[app].denom, sdk.NewInt(gamt)))
 		}
 		fund(t, a, ctx, u, coins)
 	}
@@ -448,9 +452,21 @@ func (c *esmCase) redeemOp(app uint64) {
 	ui := r.intn(len(c.users))
 	u := c.users[ui]
 	d := c.debts[r.intn(len(c.debts))]
-	// prefer a user who holds the debt asset
-	for k := 0; k < len(c.users) && !bal(a, c.ctx, u, d.denom).IsPositive(); k++ {
-		ui = (ui + 1) % len(c.users)
+	if r.chance(80) { // mostly a debt asset that is registered for redemption and not yet exhausted
+		for _, x := range c.debts {
+			if rec, found := a.EsmKeeper.GetAssetToAmount(c.ctx, app, x.id); found && rec.Amount.IsPositive() {
+				d = x
+				break
+			}
+		}
+	}
+	// mostly the user who holds most of the debt asset
+	if r.chance(70) {
+		for k := range c.users {
+			if bal(a, c.ctx, c.users[k], d.denom).GT(bal(a, c.ctx, c.users[ui], d.denom)) {
+				ui = k
+			}
+		}
 		u = c.users[ui]
 	}
 	denom := d.denom
@@ -491,6 +507,9 @@ func (c *esmCase) redeemOp(app uint64) {
 	}
 	if amt.IsNegative() {
 		amt = sdk.NewInt(1)
+	}
+	if denom == d.denom && reg.IsPositive() && amt.GT(reg) && r.chance(75) {
+		amt = reg // a holder of external debt tokens can retire at most what is registered
 	}
 	if r.chance(3) {
 		app = 77
@@ -654,7 +673,7 @@ func esmRunCase(t *testing.T, a *chain.App, base sdk.Context, tr *tracer, ci int
 		}
 	}
 	// phase C: snapshot, cool-off, set-up, redemption
-	if r.chance(30) {
+	if r.chance(20) {
 		c.priceOp(false)
 	}
 	c.beginOp()
@@ -678,6 +697,20 @@ func esmRunCase(t *testing.T, a *chain.App, base sdk.Context, tr *tracer, ci int
 		c.advance(int64(st.EndTime.Sub(c.now).Seconds()) + int64(r.pickI(1, 1, 2, 100)))
 	}
 	if r.chance(85) {
+		// every feed active again: the snapshot can complete
+		for _, as := range c.assets {
+			if tw, _ := a.MarketKeeper.GetTwa(c.ctx, as.id); !tw.IsPriceActive {
+				setPrice(a, c.ctx, as.id, tw.Twa, true)
+				c.tr.p("op price %d 1 %d ok", as.id, tw.Twa)
+				c.obsEsm()
+			}
+		}
+		if st, found := a.EsmKeeper.GetESMStatus(c.ctx, app); found && !st.SnapshotStatus {
+			c.beginOp()
+			c.advance(r.pickI(1, 6))
+		}
+	}
+	if r.chance(90) {
 		c.beginOp()
 	}
 	if r.chance(25) {
@@ -688,6 +721,9 @@ func esmRunCase(t *testing.T, a *chain.App, base sdk.Context, tr *tracer, ci int
 		c.beginOp()
 	}
 	nc := 8 + r.intn(12)
+	if !c.executed[app] {
+		nc = 3
+	}
 	for i := 0; i < nc; i++ {
 		tgt := app
 		if len(c.apps) > 1 && r.chance(25) {
